@@ -6,6 +6,7 @@ package main
 import (
 	"flag"
 	"fmt"
+	"go/ast"
 	"os"
 	"runtime/debug"
 	"sort"
@@ -165,6 +166,43 @@ func main() {
 		writeManifest()
 	case "designmd":
 		writeDesignMD()
+	case "refnames":
+		// record the reference variable names of the current tree (run on /repo HEAD when rules are (re)confirmed)
+		if err := writeRefNames(opts.Repo); err != nil {
+			fmt.Fprintln(os.Stderr, err)
+			os.Exit(2)
+		}
+	case "refdiff":
+		// debug aid: checker -repo <tree> refdiff <unit> <declKey> — why a declaration is not aligned with the reference table
+		u, err := LoadUnit(opts.Repo, args[1], defaultConfig)
+		if err != nil {
+			fmt.Fprintln(os.Stderr, err)
+			os.Exit(2)
+		}
+		loadRefTable()
+		for _, f := range u.Root.Syntax {
+			for _, d := range f.Decls {
+				fd, ok := d.(*ast.FuncDecl)
+				if !ok || fd.Body == nil || declKey(fd) != args[2] {
+					continue
+				}
+				cur, _ := u.declVars(fd)
+				for ai, ref := range refTable[args[1]+"|"+args[2]] {
+					fmt.Println("alternative", ai, "ref vars", len(ref), "current vars", len(cur))
+					for i := 0; i < len(ref) && i < len(cur); i++ {
+						if ref[i].Type != cur[i].Type {
+							fmt.Printf("  #%d ref %s %s | cur %s %s\n", i, ref[i].Name, ref[i].Type, cur[i].Name, cur[i].Type)
+						}
+					}
+				}
+			}
+		}
+	case "alpharename":
+		// checker alpharename <scratch-copy-of-repo> <locals|all>
+		if err := alphaRename(args[1], args[1], args[2]); err != nil {
+			fmt.Fprintln(os.Stderr, err)
+			os.Exit(2)
+		}
 	case "guards":
 		// debug aid: checker guards <unit> <func>... — calls, stores and returns with their dominating guards
 		u, err := LoadUnit(opts.Repo, args[1], configsFor("quick")[0])
